@@ -463,6 +463,9 @@ func checkRoundTripRemote(rep *Report, x sourceaddrs.RemoteSource, how string, r
 	s := x.String()
 	y, err := sourceaddrs.ParseSource(s)
 	sig := isKnownC06(x)
+	if sig == "" && strings.TrimSpace(s) != s {
+		sig = "addr.edge-whitespace"
+	}
 	if err != nil {
 		rep.AddOracle(OracleFailure{Property: "C06", Lane: "addr", What: fmt.Sprintf("%s prints as %q, which does not parse: %v", how, s, err), Input: how, Signature: sig, ReqIdx: reqIdx})
 		return
@@ -482,6 +485,10 @@ func checkRoundTripSource(rep *Report, x sourceaddrs.Source, how string) {
 	if rs, ok := x.(sourceaddrs.RegistrySource); ok && strings.TrimSpace(rs.SubPath()) != rs.SubPath() {
 		// a registry sub-path is printed raw; leading/trailing white space does not survive the parser's trim check
 		sig = "addr.subpath-needs-escaping"
+	} else if strings.TrimSpace(s) != s {
+		// the kind-specific parsers, relative resolution and the constructor do not look at edge white
+		// space; ParseSource refuses a string that has any
+		sig = "addr.edge-whitespace"
 	}
 	y, err := sourceaddrs.ParseSource(s)
 	if err != nil {
